@@ -102,10 +102,19 @@ def proof_stage(pid, thorough=False):
         res['wall_s'] = time.time() - t0
         return res
     names, examples = theorems_of(prop_file)
+    # optional companion module Props/<ID>LR.lean (statements for grammars with @leftrec rules that need imports the main
+    # property file cannot have): built and audited with the main one
+    modules = ['PegVerif.Props.' + pid]
+    companion = os.path.join(LEAN_DIR, 'PegVerif', 'Props', pid + 'LR.lean')
+    if os.path.exists(companion):
+        n2, e2 = theorems_of(companion)
+        names += n2
+        examples += e2
+        modules.append('PegVerif.Props.' + pid + 'LR')
     res['examples'] = examples
     res['obligations'] = len(names)
     with Lock('lake-build'):
-        p, dt = run(['lake', 'build', 'PegVerif.Props.' + pid, 'pegverif'], cwd=LEAN_DIR)
+        p, dt = run(['lake', 'build'] + modules + ['pegverif'], cwd=LEAN_DIR)
     if p.returncode != 0:
         errs = [l for l in (p.stdout + p.stderr).splitlines() if 'error' in l][:12]
         res['failures'].append('lake build failed: ' + ' | '.join(errs))
@@ -117,7 +126,8 @@ def proof_stage(pid, thorough=False):
         res['failures'].append('forbidden tokens: ' + '; '.join(hits[:8]))
     audit = os.path.join(LEAN_DIR, '.lake', 'audit_%s.lean' % pid)
     with open(audit, 'w') as f:
-        f.write('import PegVerif.Props.%s\n' % pid)
+        for mname in modules:
+            f.write('import %s\n' % mname)
         for n in names:
             f.write('#print axioms %s\n' % n)
     p, dt = run(['lake', 'env', 'lean', audit], cwd=LEAN_DIR)
@@ -138,7 +148,7 @@ def proof_stage(pid, thorough=False):
             res['discharged'] += 1
         res['theorems'].append(dict(name=n, axioms=sorted(ax) if ax is not None else None))
     if thorough:
-        p, dt = run(['lake', 'env', 'leanchecker', 'PegVerif.Props.' + pid], cwd=LEAN_DIR)
+        p, dt = run(['lake', 'env', 'leanchecker'] + modules, cwd=LEAN_DIR)
         res['leanchecker_rc'] = p.returncode
         if p.returncode != 0:
             res['failures'].append('leanchecker: ' + (p.stdout + p.stderr)[-400:])
